@@ -25,6 +25,9 @@ def run(chk):
                           {k: p.get(k) for k in ("outcome", "path", "want", "got", "msg", "written") if p.get(k) is not None})
     chk.cov["evaluations"] = n
     chk.cov["distinct_nontrivial"] = len(cases)
+    # ---- extended coverage: the written text against the LEF grammar acceptor (specs/lef/LefGrammar.tla)
+    from . import lefgrammar
+    chk.cov["grammar_texts"] = lefgrammar.stage(chk, cases)
     k = len(cases) // 2
     chk.sample({"library": L.describe(cases[k]["lib"]), "result": {"problems": res[k].get("nproblems")}})
     return chk.finish(
